@@ -35,6 +35,8 @@ func init() {
 			{ID: "C06.13", Desc: "Cache-Control is read through all of its field lines (no-store on a second line)", Run: func(c *Ctx) { ruleRLIST(c, "C06.13", "Cache-Control") }, MinSites: 1},
 			{ID: "C06.14", Desc: "validators are written onto a copy of the caller's header (a polluted request makes a later unconditional GET come back 304)", Run: func(c *Ctx) { ruleC02_3(c); renameRule(c, "C02.3", "C06.14") }, MinSites: 1},
 			{ID: "C06.15", Desc: "a body that fails while it is serialised leaves nothing in the store (no error of a call is overwritten unseen)", Run: func(c *Ctx) { ruleNoDeadErrorValues(c, "C06.15") }, MinSites: 1},
+			{ID: "C06.16", Desc: "No-Store / Must-Understand in any letter case are recognised", Run: func(c *Ctx) { ruleC12_1(c); renameRule(c, "C12.1", "C06.16") }, MinSites: 1},
+			{ID: "C06.17", Desc: "no-store is seen wherever it stands in the field (the collector visits every directive)", Run: func(c *Ctx) { ruleCollectorVisitsEveryPair(c, "C06.17") }, MinSites: 1},
 		},
 	})
 }
